@@ -50,4 +50,28 @@ theorem C13_adjacent_fdes (F G : Fde) (hadj : F.start + F.len = G.start) (hF : 0
   have h4 : ¬ (F.start ≤ G.start ∧ G.start < F.start + F.len) := by omega
   simp [hFe, hGe, h1, h2, h3, h4]
 
+/-- Row boundaries inside one FDE: if the rows change at offset `k` (a call as the last
+instruction before a block with another CFA - a call to a noreturn function), the return
+address `start + k` is unwound with the row in force *before* `k`, the instruction pointer
+`start + k` with the row that starts there. -/
+theorem C13_row_boundary (fde : Fde) (r1 r2 : Row) (k : Nat) (hk : 0 < k) (hlen : k < fde.len)
+    (he : fde.evalFails = false) (hrows : fde.rows = [(0, r1), (k, r2)]) :
+    fde.rowFor ((FrameAddr.ret (fde.start + k)).lookup) = some r1 ∧
+    fde.rowFor ((FrameAddr.ip (fde.start + k)).lookup) = some r2 := by
+  unfold Fde.rowFor FrameAddr.lookup
+  simp only [he, hrows]
+  have h1 : fde.start ≤ fde.start + k - 1 ∧ fde.start + k - 1 < fde.start + fde.len := by omega
+  have h2 : fde.start ≤ fde.start + k ∧ fde.start + k < fde.start + fde.len := by omega
+  have h3 : ¬ (k ≤ fde.start + k - 1 - fde.start) := by omega
+  have h4 : k ≤ fde.start + k - fde.start := by omega
+  simp [h1, h2, h3, h4, List.filter]
+
+/-- Through the whole call: a return address is unwound with the plan for the relative
+address of `address - 1`; the plan never sees the raw return address. -/
+theorem C13_plan_sees_lookup_address (A : Arch) (u : Unw) (a : Nat) (regs : A.Regs) (mem : Mem)
+    (i rel : Nat) (m : Module) (hf : findModule u.mods (a - 1) = some (i, rel))
+    (hm : u.mods[i]? = some m) (r : A.Rule) (hp : plan A m rel false = .exec r) :
+    missPath A u (.ret a) regs mem = (some r, A.exec r false regs mem) := by
+  simp [missPath, FrameAddr.lookup, FrameAddr.isReturn, hf, hm, hp]
+
 end FH
